@@ -396,3 +396,7 @@ def run_thorough(ck):
 # session 5 (round 9, D24)
 EXPLANATION = EXPLANATION + " " + (
     'SIB/resume-gzindex (shared with C20): the two header-CRC bytes are appended only when the pending buffer has room for both (Pending::extend asserts the room).')
+
+# session 5 (round 10)
+EXPLANATION = EXPLANATION + " " + (
+    'COPY/whole-buffer (shared with C14): deflateCopy copies the whole symbol buffer (push_lit relies on zero distance bytes).')
